@@ -137,10 +137,15 @@ def _module_call(ex: Exec, dotted: str, node: ast.Call):
     if dotted in ("pd.DataFrame", "pandas.DataFrame"):
         for a in node.args:
             ex.eval(a)
-        for k in node.keywords:
-            ex.eval(k.value)
-        lib.used(ex, "pd.DataFrame(...): a fresh frame object (contents not modelled)")
-        return SV(S.mk_ref(ex.new_obj("pd.DataFrame")), DF)
+        kw = {k.arg: ex.eval(k.value) for k in node.keywords}
+        lib.used(ex, "pd.DataFrame(...): a fresh frame object (contents not modelled); with index=<array> its last index label is the array's last element")
+        fid = ex.new_obj("pd.DataFrame")
+        idx = kw.get("index")
+        if idx is not None and A.is_arr(idx):
+            from . import lib_pd, lib_tp
+
+            ex.assume(lib_pd.last_time(fid) == lib_tp.v_last(A.arrv(ex, idx)))
+        return SV(S.mk_ref(fid), DF)
     if dotted in ("np.reshape", "numpy.reshape") and len(node.args) == 2:
         a = ex.eval(node.args[0])
         shape = node.args[1]
